@@ -19,7 +19,7 @@
 //   NBLOCKS <nb>
 //   BLOCK <b> <size> <states...>             StatesContainer[b]
 //   QN <b> <hash> { <re> <im> }              BlockToQuantum[b]: NumbersHash and the numbers
-//   STATE <s> <block> <inner> { <re> <im> }  getBlockNumber(s), getInnerState(s), and the quantum numbers of s recomputed
+//   STATE <s> <block> <inner> { <re> <im> }  (or STATE <s> ERR-<exception>) getBlockNumber(s), getInnerState(s), and the quantum numbers of s recomputed
 //                                            through Operator::getMatrixElement(s, s) of the accepted operators
 //   HASH ok | HASH collision <s> <b>         hash injectivity on the occurring tuples: every state's tuple equals (==) the tuple
 //                                            stored for its block, and tuples of different blocks differ
@@ -140,17 +140,18 @@ static void run_case(const std::string& id, const pv::Scenario& sc) {
     }
     unsigned long nst = S.getNumberOfStates();
     long coll_s = -1, coll_b = -1;
-    try {
-        for (unsigned long s = 0; s < nst; ++s) {
-            FockState fs(N, s);
+    for (unsigned long s = 0; s < nst; ++s) {
+        FockState fs(N, s);
+        try {
             int b = int(S.getBlockNumber(QuantumState(s)));
-            printf("STATE %lu %d %lu", s, b, (unsigned long)S.getInnerState(QuantumState(s)));
+            unsigned long inner = (unsigned long)S.getInnerState(QuantumState(s));
+            printf("STATE %lu %d %lu", s, b, inner);
             std::vector<MelemType> q;
             for (size_t k = 0; k < ops.size(); ++k) { q.push_back(ops[k]->getMatrixElement(fs, fs)); printf(" %s", pv::hexm(q.back()).c_str()); }
             printf("\n");
             if (b < 0 || b >= nb || !(q == bq[b])) { if (coll_s < 0) { coll_s = long(s); coll_b = b; } }
-        }
-    } catch (std::exception& ex) { printf("\nTHROWS states %s\n", exname(ex).c_str()); return; }
+        } catch (std::exception& ex) { printf("STATE %lu ERR-%s\n", s, exname(ex).c_str()); }
+    }
     for (int b = 0; b < nb && coll_s < 0; ++b) for (int c = b + 1; c < nb; ++c) if (bq[b] == bq[c]) { coll_s = -2; coll_b = b; break; }
     if (coll_s == -1) printf("HASH ok\n"); else printf("HASH collision %ld %ld\n", coll_s, coll_b);
     long rt = -1;
